@@ -46,25 +46,30 @@ class Var:
 
 
 def gen_case(rng, idx, tier):
-    nd = rng.choice([1, 1, 2]) if tier == "quick" else rng.choice([1, 1, 2, 2, 3])
+    nd = rng.choice([1, 1, 2, 2]) if tier == "quick" else rng.choice([1, 1, 2, 2, 3])
     grids = rng.random() < 0.75
     hf = rng.choice([1, 2, 3, 5, 7])
     gf = hf if (not grids or rng.random() < 0.6) else hf * rng.choice([2, 3])
     wt = rng.random() < 0.35
-    expand = grids and rng.random() < 0.3
+    expand = grids and rng.random() < 0.4
     periodic = (not expand) and rng.random() < 0.3
     hw = rng.choice([1.0, 2.0, 3.0]) if grids else rng.choice([1.0, 2.0, 2.5])
     W = rng.choice([0.25, 0.5, 1.0])
     T = 90 if tier == "quick" else 200
     vs = []
     names = ["d2", "d1", "d3"][:nd]
-    for n in names:
+    # with expandBoundaries, each variable expands or not independently (at least one does): a variable with
+    # fixed boundaries next to an expanding one still makes off-grid excursions
+    exflags = [expand and rng.random() < 0.6 for _ in names]
+    if expand and not any(exflags):
+        exflags[rng.randrange(len(names))] = True
+    for n, ex in zip(names, exflags):
         if n == "d1":
-            vs.append(Var("d1", 2.0, 8.0, 0.5, False, expand))
+            vs.append(Var("d1", 2.0, 8.0, 0.5, False, ex))
         elif n == "d2":
-            vs.append(Var("d2", -4.0, 4.0, 0.5, periodic, expand and not periodic))
+            vs.append(Var("d2", -4.0, 4.0, 0.5, periodic, ex and not periodic))
         else:
-            vs.append(Var("d3", -4.0, 4.0, 1.0, False, False))
+            vs.append(Var("d3", -4.0, 4.0, 1.0, False, ex))
     hist = []
     for v in vs:
         if v.periodic:
